@@ -60,6 +60,9 @@ def ang(d):
     return math.degrees(math.atan2(d[1], d[0])) * u.deg
 
 
+ROUTE = [0]          # polygons are built through three routes in turn
+
+
 def build_pix(r):
     import regions as R
     from regions import PixCoord, RegionMeta, RegionVisual
@@ -94,7 +97,8 @@ def build_pix(r):
         return R.LinePixelRegion(c, PixCoord(r['x2'] / U, r['y2'] / U), **kw)
     if k == 'polygon':
         xs, ys = np.array([v[0] / U for v in r['vs']]), np.array([v[1] / U for v in r['vs']])
-        route = (len(r['vs']) + int(r['vs'][0][0]) + int(r['vs'][0][1])) % 3
+        ROUTE[0] += 1
+        route = ROUTE[0] % 3
         if route == 1:          # vertices given relative to an origin
             return R.PolygonPixelRegion(PixCoord(xs - 140.0, ys - 95.0), origin=PixCoord(140.0, 95.0), **kw)
         if route == 2:          # vertices assigned after construction
@@ -245,6 +249,19 @@ def check_state(ctx, st, idx, pid='C06'):
                 return True
         except Exception as ex:  # noqa
             ctx.violation(sig + f'sky-first-raises|{kindsig(r)}|{type(ex).__name__}', f'sky compound conversion raised {ex!r}', case)
+            return True
+    # points, lines and text contain nothing (everything when excluded): the sky region answers like its pixel image
+    if r['k'] in ('point', 'line', 'text'):
+        g = np.arange(-2.0, 6.0, 1.0)
+        xs, ys = [v.ravel() for v in np.meshgrid(g + r.get('cx', 40) / U, g + r.get('cy', -24) / U)]
+        with warnings.catch_warnings():
+            warnings.simplefilter('ignore')
+            a1 = np.asarray(pix.contains(PixCoord(xs, ys)))
+            a2 = np.asarray(sky.contains(wcs.pixel_to_world(xs, ys), wcs))
+        want_all = r['inc'] in ('F', '0')
+        if a1.shape != a2.shape or (a1 != a2).any() or bool(a1.all()) != want_all or bool(a1.any()) != want_all:
+            ctx.violation(sig + f'member|{kindsig(r)}', f"a {r['k']} region (include flag {r['inc']}): the pixel region says {int(a1.sum())} of {a1.size} positions are members, "
+                          f'the sky region {int(np.sum(a2))}', case)
             return True
     # membership: the sky region and its pixel image answer alike (positions near the boundary excluded)
     if r['k'] not in ('point', 'line', 'text') and idx % 2 == 0:
